@@ -162,6 +162,10 @@ func newC07Rig(c *ctx, hc c07HdrCfg, extra []string) (*c07Rig, error) {
 			return nil, fmt.Errorf("listener %s did not come up", a)
 		}
 	}
+	if err := waitTLSServing("r0.test", r.tlsA); err != nil {
+		r.close()
+		return nil, err
+	}
 	// the noroute page travels through its own watcher
 	time.Sleep(300 * time.Millisecond)
 	return r, nil
